@@ -130,8 +130,10 @@ SOURCE_TIE = {
     "C01": ("C01_source", "identifier.Version"),
     "C02": ("C02_source", "identifier.Kind"),
     "C05": ("C05_source", "Header.Valid"),
-    "C06": ("C06_source", "Subject.countTokenWildcards"),
-    "C09": ("C09_source", "RevocationList.Revoke / ClearRevocation / IsRevoked / allRevoked / MaybeCompact (v2 and v1compat)"),
+    "C06": ("C06_source", "Subject.countTokenWildcards, Subject.Validate, ServiceLatency.Validate, Export.Validate (with the Export kind / response-type predicates)"),
+    "C07": ("C07_source", "ClaimsData.Validate (v2 and v1compat), the time checks every kind delegates to"),
+    "C08": ("C08_source", "OperatorClaims.DidSign and AccountClaims.DidSign"),
+    "C09": ("C09_source", "RevocationList.Revoke / ClearRevocation / IsRevoked / allRevoked / MaybeCompact (v2 and v1compat), AccountClaims.IsClaimRevoked / isRevoked, Export.IsClaimRevoked / isRevoked"),
     "C10": ("C10_source", "Subject.IsContainedIn / HasWildCards (v2 and v1compat)"),
     "C16": ("C16_source", "Subject.IsContainedIn / HasWildCards (v2 and v1compat)"),
     "C18": ("C18_source", "cleanSubject (v2 and v1compat)"),
